@@ -8,6 +8,7 @@ import (
 	"sort"
 	"strings"
 	"sync"
+	stdatomic "sync/atomic"
 	"time"
 
 	"github.com/trustbloc/sidetree-core-go/pkg/api/operation"
@@ -392,6 +393,9 @@ func newC16NodeT(useProxy bool, monitor, timeout time.Duration) *c16Node {
 	}
 	client := fx.NewClient(mk(0), mk(10))
 	var q cutter.OperationQueue = n.queue
+	if c16WrapQueue != nil {
+		q = c16WrapQueue(q)
+	}
 	if useProxy {
 		n.proxy = &queueProxy{inner: n.queue}
 		q = n.proxy
@@ -402,6 +406,20 @@ func newC16NodeT(useProxy bool, monitor, timeout time.Duration) *c16Node {
 	}
 	n.writer = w
 	return n
+}
+
+// c16WrapQueue, when set, wraps the queue handed to the writer (used by the main-loop check to count queue polls).
+var c16WrapQueue func(cutter.OperationQueue) cutter.OperationQueue
+
+// lenCountingQueue counts Len calls: on an empty queue every pass of the writer's loop polls the length exactly once.
+type lenCountingQueue struct {
+	cutter.OperationQueue
+	polls int64
+}
+
+func (q *lenCountingQueue) Len() uint {
+	stdatomic.AddInt64(&q.polls, 1)
+	return q.OperationQueue.Len()
 }
 
 // c16MainLoop runs the writer's own goroutine (Start: timers and the select loop that the stepped searches bypass). Real
@@ -427,10 +445,32 @@ func c16MainLoop(r *hx.Run) {
 	saved := c16Max
 	c16Max = 2
 	defer func() { c16Max = saved }()
+	var lq *lenCountingQueue
+	c16WrapQueue = func(q cutter.OperationQueue) cutter.OperationQueue {
+		lq = &lenCountingQueue{OperationQueue: q}
+		return lq
+	}
+	defer func() { c16WrapQueue = nil }()
+	// started waits until the loop has polled the (empty) queue twice: the second poll belongs to a pass after the start-up pass,
+	// which force-cuts whatever it finds, so operations added from now on are only subject to monitor / timeout ticks
+	started := func() bool {
+		deadline := time.Now().Add(30 * time.Second)
+		for time.Now().Before(deadline) {
+			if stdatomic.LoadInt64(&lq.polls) >= 2 {
+				return true
+			}
+			time.Sleep(time.Millisecond)
+		}
+		return false
+	}
 	if caseID := "mainloop|monitor-ticks-do-not-force"; r.Want(caseID) {
 		n := newC16NodeT(false, 2*time.Millisecond, 24*time.Hour)
 		n.writer.Start()
-		time.Sleep(10 * time.Millisecond) // the start-up pass over the (empty) queue
+		if !started() {
+			r.Outcome("mainloop: the writer loop did not poll the queue within 30 s (inconclusive)")
+			n.writer.Stop()
+			return
+		}
 		_, _ = n.add("C1", 0)
 		time.Sleep(150 * time.Millisecond) // dozens of monitor ticks
 		r.Eval()
@@ -450,7 +490,11 @@ func c16MainLoop(r *hx.Run) {
 	if caseID := "mainloop|version-boundary"; r.Want(caseID) {
 		n := newC16NodeT(false, 2*time.Millisecond, 24*time.Hour)
 		n.writer.Start()
-		time.Sleep(10 * time.Millisecond)
+		if !started() {
+			r.Outcome("mainloop: the writer loop did not poll the queue within 30 s (inconclusive)")
+			n.writer.Stop()
+			return
+		}
 		_, _ = n.add("C1", 0)
 		_, _ = n.add("C2", 10) // version boundary behind C1: C1 may be cut by a monitor tick, C2 (alone, undersized) may not
 		time.Sleep(150 * time.Millisecond)
@@ -467,7 +511,7 @@ func c16MainLoop(r *hx.Run) {
 	if caseID := "mainloop|timeout-forces"; r.Want(caseID) {
 		n := newC16NodeT(false, 24*time.Hour, 5*time.Millisecond)
 		n.writer.Start()
-		time.Sleep(10 * time.Millisecond)
+		_ = started()
 		_, _ = n.add("C1", 0)
 		cut := waitFor(n, 1, 20*time.Second)
 		r.Eval()
